@@ -137,6 +137,7 @@ RESUME = {
         'threading.Thread': ["layer_name == old(layers)[_i][0]", "layer == old(layers)[_i][1]",     # in the order handed over
                              "_kw_args[0] == result", "_kw_args[4] == layer_name", "_kw_args[5] == layer",
                              "_kw_args[9] == resume_number",
+                             "_kw_args[10] == cwd",                 # C03: ... and the start directory (startdir_c03)
                              "resume_number == ite(options.processes > 1, 1, 0) + _i"],
         # at most N children alive: a thread is started only into a free slot, and only once
         'thread.start': ["thread not in G.started", "len(running_threads) < options.processes",
